@@ -705,6 +705,15 @@ class PhrasePlugin(Plugin):
                     # The field is stored but not indexed
                     return attach(query.error_query("Field %r is not indexed"
                                                     % fieldname), self)
+                elif (field.self_parsing()
+                      and not field.format.supports("positions")):
+                    # The field parses its own queries and cannot run a
+                    # positional query anyway (e.g. NUMERIC, DATETIME), so let
+                    # it parse the quoted text as it would an unquoted term;
+                    # this reports unparseable text in-band
+                    q = parser.term_query(fieldname, text, parser.termclass,
+                                          boost=self.boost)
+                    return attach(q, self)
                 elif field.analyzer:
                     # We have a field with an analyzer, so use it to parse
                     # the phrase into tokens
